@@ -8,6 +8,10 @@ from ..srcmodel import unparse, norm, walk_no_nested, calls_in, fold_const
 from .common import is_method_call, cfg_of, get_kw, recv_of, name_defs
 from . import mergerules as mr
 from .tagtable import constructors
+from . import tr
+from . import mergetrace as mt
+from ..fde import FDE, Obj, Opaque
+from .common import fde_guard, PRIOS
 
 PROP = 'C13'
 DECIDED = [
@@ -20,159 +24,181 @@ UNDECIDED = ['binding for arbitrary signatures and dynamic argument values as da
 KINDS = ['POSITIONAL_ONLY', 'POSITIONAL_OR_KEYWORD', 'VAR_POSITIONAL', 'KEYWORD_ONLY', 'VAR_KEYWORD']
 
 
-def _body_norm(fi):
-    return [norm(s) for s in fi.node.body if not (isinstance(s, ast.Expr) and isinstance(s.value, ast.Constant))]
+ENI = {'_resolve_args', '_require_safe', 'on_evaluate_impl', 'require_all_safe', 'import_name'}
+
+
+def _prefix_signature(p, upto):
+    """what a path does before resolving the arguments: facts and the sequence of calls / with-contexts"""
+    evs = []
+    for e in p.events[:upto]:
+        if e.kind == 'call':
+            evs.append('call ' + (e.callee or ''))
+        elif e.kind in ('with_enter', 'with_exit'):
+            evs.append(e.kind + ' ' + (e.callee or ''))
+    return (tuple(sorted(set(p.facts))), tuple(evs))
 
 
 def r1(repo, run):
     call = repo.func('CallNode.ayns.on_evaluate_impl')
     bind = repo.func('BindNode.ayns.on_evaluate_impl')
-    a, b = _body_norm(call), _body_norm(bind)
-    if a[:-1] != b[:-1]:
-        diff = [(x, y) for x, y in zip(a, b) if x != y] or [(a, b)]
-        run.violation('C13.R1', bind, 'BindNode vs CallNode evaluation', '!call and !bind prepare target and arguments differently: %s' % (diff[0],))
-    else:
-        run.ok('C13.R1', bind, 'CallNode / BindNode on_evaluate_impl agree up to the final expression (%d statements)' % (len(a) - 1))
+    sigs = {}
     for fi, kind in ((call, 'call'), (bind, 'bind')):
-        last = fi.node.body[-1]
-        if not isinstance(last, ast.Return) or not isinstance(last.value, ast.Call):
-            run.violation('C13.R1', fi, norm(last), 'evaluation does not end in a call of the target / partial(target, ...)')
-            continue
-        c = last.value
-        args = list(c.args)
-        if kind == 'bind':
-            if norm(c.func) not in ('partial', 'functools.partial') or not args:
-                run.violation('C13.R1', fi, norm(last), '!bind does not evaluate to functools.partial(target, ...)', node=last)
+        paths = [p for p in tr.paths_of(repo, fi, no_inline=ENI, follow_exceptions=False) if p.status == 'return']
+        if not paths:
+            raise AnalysisError('%s: no returning path' % fi.qualname)
+        sigs[kind] = set()
+        probs = set()
+        for p in paths:
+            rs = [i for i, e in enumerate(p.events) if e.kind == 'call' and e.attr == '_resolve_args']
+            c = p.ret.ast if p.ret is not None else None
+            if len(rs) != 1:
+                probs.add('arguments are not resolved once with FunctionNode._resolve_args on a returning path (returns %s)' % (p.ret.text[:60] if p.ret is not None else None))
                 continue
-            target, args = args[0], args[1:]
-        else:
-            target = c.func
-        # find the unpacking of _resolve_args in this function or the shared helper
-        src_fi = fi
-        ups = [s for s in walk_no_nested(fi.node) if isinstance(s, ast.Assign) and isinstance(s.value, ast.Call) and is_method_call(s.value, member='_resolve_args')]
-        if ups:
-            names = [norm(e) for e in ups[0].targets[0].elts]
-            want_pos = ['*' + names[0]]
-            want_kw = [names[1], names[2]]
+            r = p.events[rs[0]]
+            sigs[kind].add(_prefix_signature(p, rs[0]))
+            R = r.result.text
+            if not isinstance(c, ast.Call):
+                probs.add('evaluation does not end in a call of the target / partial(target, ...) (returns %s)' % p.ret.text[:60])
+                continue
+            args = list(c.args)
+            if kind == 'bind':
+                if norm(c.func) not in ('partial', 'functools.partial') or not args:
+                    probs.add('!bind does not evaluate to functools.partial(target, ...)')
+                    continue
+                target, args = norm(args[0]), args[1:]
+            else:
+                target = norm(c.func)
             got_pos = [('*' + norm(x.value)) if isinstance(x, ast.Starred) else norm(x) for x in args]
             got_kw = [norm(k.value) for k in c.keywords if k.arg is None]
-            if got_pos != want_pos or got_kw != want_kw or any(k.arg is not None for k in c.keywords):
-                run.violation('C13.R1', fi, norm(last), 'target is not invoked with (*%s, **%s, **%s) - the three groups of _resolve_args in order' % tuple(names), node=last)
-            elif norm(target) != norm(ups[0].value.args[0]):
-                run.violation('C13.R1', fi, norm(last), 'the invoked callable (%s) is not the one the arguments were resolved against (%s)' % (norm(target), norm(ups[0].value.args[0])), node=last)
-            else:
-                run.ok('C13.R1', (fi.file, last.lineno, fi.qualname), norm(last), 'positional prefix, positions bound by name, keywords')
-        else:
-            run.info('C13.R1', fi, norm(last), 'arguments resolved in a shared helper; sibling agreement holds by construction')
+            if got_pos != ['*%s[0]' % R] or got_kw != ['%s[1]' % R, '%s[2]' % R] or any(k.arg is not None for k in c.keywords):
+                probs.add('target is not invoked with (*p, **kw_p, **kw) - the three groups of _resolve_args in order')
+            elif not r.args or target != r.args[0].text:
+                probs.add('the invoked callable (%s) is not the one the arguments were resolved against (%s)' % (target[:40], r.args[0].text[:40] if r.args else None))
+            elif len(r.args) < 2 or not any(e.kind == 'call' and e.attr == 'on_evaluate_impl' and e.result is not None and e.result.text == r.args[1].text for e in p.events[:rs[0]]):
+                probs.add('the arguments resolved are not the evaluated children of the node')
+        for pr_ in sorted(probs):
+            run.violation('C13.R1', fi, '%s evaluation' % fi.cls.name, pr_)
+        if not probs:
+            run.ok('C13.R1', fi, 'target(*p, **kw_p, **kw)' if kind == 'call' else 'partial(target, *p, **kw_p, **kw)', 'positional prefix, positions bound by name, keywords (%d paths)' % len(paths))
+    if sigs['call'] != sigs['bind']:
+        diff = sorted(sigs['call'] ^ sigs['bind'])[0]
+        run.violation('C13.R1', bind, 'BindNode vs CallNode evaluation', '!call and !bind prepare target and arguments differently: %s' % (' / '.join(diff[1])[:200],))
+    else:
+        run.ok('C13.R1', bind, 'CallNode / BindNode on_evaluate_impl agree up to the final expression (%d path signatures)' % len(sigs['call']))
 
 
-def _admits(test_break, kind):
-    """does the loop admit a parameter of `kind`?  test_break is the condition under which the loop breaks"""
-    def ev(e):
-        if isinstance(e, ast.BoolOp):
-            vs = [ev(v) for v in e.values]
-            return all(vs) if isinstance(e.op, ast.And) else any(vs)
-        if isinstance(e, ast.UnaryOp) and isinstance(e.op, ast.Not):
-            return not ev(e.operand)
-        if isinstance(e, ast.Compare) and len(e.ops) == 1 and norm(e.left).endswith('.kind'):
-            op, r = e.ops[0], e.comparators[0]
-            ks = [norm(x).split('.')[-1] for x in (r.elts if isinstance(r, (ast.Tuple, ast.List, ast.Set)) else [r])]
-            for k in ks:
-                if k not in KINDS:
-                    raise AnalysisError('unknown parameter kind %s' % k)
-            if isinstance(op, (ast.Eq, ast.Is)):
-                return kind == ks[0]
-            if isinstance(op, (ast.NotEq, ast.IsNot)):
-                return kind != ks[0]
-            if isinstance(op, ast.In):
-                return kind in ks
-            if isinstance(op, ast.NotIn):
-                return kind not in ks
-        raise AnalysisError('_resolve_args: break condition %s outside the evaluable fragment' % norm(e))
-    return not ev(test_break)
+# ---- R2: _resolve_args evaluated on concrete signatures -----------------------------------------------------
+PO, POK, VP, KO, VK = KINDS
+SIGNATURES = [
+    [('a', POK), ('b', POK), ('c', POK)],
+    [('a', PO), ('b', POK), ('c', KO)],
+    [('a', POK), ('args', VP), ('b', KO)],
+    [('a', POK), ('kw', VK)],
+    [('a', POK), ('b', POK), ('k', KO), ('kw', VK)],
+    [('args', VP), ('kw', VK)],
+]
+ARGS = [
+    {}, {'x': 1}, {0: 'v0'}, {0: 'v0', 1: 'v1'}, {0: 'v0', 2: 'v2'}, {1: 'v1'}, {2: 'v2', 'k': 'w'}, {0: 'v0', 'b': 'y'}, {3: 'v3'}, {1: 'v1', 0: 'v0'},
+    {2: 'v2', 0: 'v0', 1: 'v1'}, {0: 'v0', 1: 'v1', 3: 'v3'},
+]
+
+
+def _expected(sig, args):
+    ints = {k: v for k, v in args.items() if isinstance(k, int)}
+    if not ints:
+        return ([], {}, dict(args))
+    kws = {k: v for k, v in args.items() if isinstance(k, str)}
+    table = []
+    for name, kind in sig:
+        if kind not in (PO, POK):
+            break
+        table.append(name)
+    unpack = []
+    i = 0
+    while i in ints:
+        unpack.append(ints.pop(i))
+        i += 1
+    kwp = {}
+    for idx, v in ints.items():
+        if idx >= len(table):
+            return 'ValueError'
+        kwp[table[idx]] = v
+    return (unpack, kwp, kws)
 
 
 def r2(repo, run):
+    """FunctionNode._resolve_args evaluated (finite-domain evaluator; inspect.signature replaced by a parameter table) on
+    %d signatures x %d argument mappings against the binding Python itself would make"""
     fi = repo.func('FunctionNode._resolve_args')
-    loops = [s for s in walk_no_nested(fi.node) if isinstance(s, ast.For) and any(isinstance(c.func, ast.Attribute) and c.func.attr == 'append' and norm(c.func.value) == 'idx_to_name' for c in calls_in(s))]
-    if len(loops) != 1:
-        raise AnalysisError('_resolve_args: index->name loop not recognised')
-    lp = loops[0]
-    brk = [s for s in lp.body if isinstance(s, ast.If) and any(isinstance(b, (ast.Break, ast.Continue)) for b in s.body)]
-    if len(brk) != 1:
-        raise AnalysisError('_resolve_args: break condition of the index->name loop not recognised')
-    admitted = [k for k in KINDS if _admits(brk[0].test, k)]
-    run.table('C13.R2', 5, 'inspect.Parameter kinds admitted to the index->name table')
-    if admitted != ['POSITIONAL_ONLY', 'POSITIONAL_OR_KEYWORD']:
-        run.violation('C13.R2', fi, 'if %s: break' % norm(brk[0].test), 'integer argument keys can be bound to parameters of kind %s (only positional parameters have a position): e.g. {1: v} for def g(a=0, **kw) is passed as kw=v' % [k for k in admitted if k not in ('POSITIONAL_ONLY', 'POSITIONAL_OR_KEYWORD')] if len(admitted) > 2 else 'positional parameters of kind %s are not admitted' % [k for k in ('POSITIONAL_ONLY', 'POSITIONAL_OR_KEYWORD') if k not in admitted], node=brk[0])
+    kinds = {k: ('ext', ('kind', k)) for k in KINDS}
+    bad = []
+    rows = 0
+    for sig in SIGNATURES:
+        for args in ARGS:
+            params = {}
+            for name, kind in sig:
+                params[name] = Obj('param_' + name, 'object', kind=kinds[kind])
+                params[name].f['name'] = name
+            sigobj = Obj('sig', 'object', parameters=params)
+            f = FDE(repo)
+            f.externals = {'inspect.Parameter.' + k: v[1] for k, v in kinds.items()}
+            f.extcalls = {'inspect.signature': lambda fn, sigobj=sigobj: sigobj}
+            r = fde_guard(lambda: f.call(fi, Opaque('target'), dict(args)))
+            rows += 1
+            exp = _expected(sig, dict(args))
+            if exp == 'ValueError':
+                got = r.raised
+                okk = r.raised == 'ValueError'
+            else:
+                got = r.ret
+                okk = r.raised is None and isinstance(r.ret, (tuple, list)) and len(r.ret) == 3 and list(r.ret[0]) == exp[0] and dict(r.ret[1]) == exp[1] and dict(r.ret[2]) == exp[2]
+            if not okk:
+                bad.append((['%s:%s' % (n, k) for n, k in sig], args, got if r.raised is None else 'raises ' + str(r.raised), exp))
+    run.table('C13.R2', rows, '_resolve_args over signatures x argument mappings')
+    if bad:
+        sg, ar, got, exp = bad[0]
+        run.violation('C13.R2', fi, '_resolve_args binding table', 'for def f(%s) and arguments %r the groups are %r; Python binds %r (only positional parameters have a position; the contiguous prefix goes by position; the rest by name; an index beyond the positional parameters raises ValueError)' % (', '.join(sg), ar, got, exp), witness=[str(b)[:300] for b in bad[:6]])
     else:
-        run.ok('C13.R2', (fi.file, brk[0].lineno, fi.qualname), 'if %s: break' % norm(brk[0].test)[:100], 'admits exactly POSITIONAL_ONLY / POSITIONAL_OR_KEYWORD')
-    rz = [s for s in ast.walk(fi.node) if isinstance(s, ast.If) and any(isinstance(b, ast.Raise) for b in s.body) and 'len(idx_to_name)' in norm(s.test)]
-    if not rz or norm(rz[0].test) not in ('idx >= len(idx_to_name)', 'len(idx_to_name) <= idx', 'not idx < len(idx_to_name)'):
-        run.violation('C13.R2', fi, norm(rz[0].test) if rz else 'index bound check', 'an index beyond the positional parameters is not rejected')
-    else:
-        run.ok('C13.R2', (fi.file, rz[0].lineno, fi.qualname), 'if %s: raise' % norm(rz[0].test))
-    # positional prefix by position
-    wl = [s for s in walk_no_nested(fi.node) if isinstance(s, ast.While)]
-    ok = False
-    how = ''
-    for w in wl:
-        pops = [c for c in calls_in(w) if is_method_call(c, recv='positional_args', member='pop') and c.args]
-        incr = [s for s in w.body if isinstance(s, ast.AugAssign) and isinstance(s.op, ast.Add) and isinstance(s.value, ast.Constant) and s.value.value == 1]
-        if pops and incr and norm(pops[0].args[0]) == norm(incr[0].target):
-            appended = [c for c in calls_in(w) if isinstance(c.func, ast.Attribute) and c.func.attr == 'append' and any(p is x for p in pops for x in ast.walk(c))]
-            init = [d for d in name_defs(fi, norm(incr[0].target)) if d[0] == 'assign' and d[2].lineno < w.lineno]
-            if appended and init and norm(init[-1][1]) == '0':
-                ok = True
-                how = 'unpack.append(positional_args.pop(%s)) for %s = 0, 1, 2, ... while present' % (norm(incr[0].target), norm(incr[0].target))
-    if ok:
-        run.ok('C13.R2', (fi.file, wl[0].lineno, fi.qualname), how, 'contiguous positional prefix taken by position')
-    else:
-        from .common import derives_from
-        sl = [s for s in walk_no_nested(fi.node) if isinstance(s, ast.Assign) and norm(s.targets[0]) == 'unpack' and
-              derives_from(fi, s.value, lambda n: isinstance(n, ast.Call) and isinstance(n.func, ast.Attribute) and n.func.attr in ('items', 'values'), depth=3)
-              and any(isinstance(x, ast.Slice) for x in ast.walk(s.value))]
-        if sl:
-            run.violation('C13.R2', fi, norm(sl[0]), 'the positional prefix is taken from the argument mapping in insertion order (slice of items/values), not by position: {0: a, 2: c} merged with {1: b} calls f(a, c, b)', node=sl[0])
-        else:
-            raise AnalysisError('_resolve_args: construction of the positional prefix not recognised')
+        run.ok('C13.R2', fi, '_resolve_args binding table (%d rows)' % rows, 'prefix by position, remaining indices by name of positional parameters only, out-of-range index raises')
 
 
 def r3(repo, run):
     fi = repo.func('FunctionNode.ayns.on_merge_impl')
-    g = cfg_of(fi)
-    assigns = [n for n in g.stmt_nodes() if n.kind == 'stmt' and isinstance(n.ast, ast.Assign) and norm(n.ast.targets[0]) == 'self._func']
-    if len(assigns) < 2:
-        raise AnalysisError('FunctionNode.on_merge_impl: expected two assignments of self._func (string / function-node branch), found %d' % len(assigns))
-    paths = cfgmod.enumerate_paths(g, follow_exc=False)
-    for an in assigns:
-        through = [p for p in paths if any(n is an for n, _ in p)]
-        bad = None
-        for p in through:
-            facts = set()
-            cleared = False
-            for n, label in p:
-                if n.kind == 'test' and label in ('true', 'false'):
-                    facts |= cfgmod.cond_facts(n.ast, label == 'true')
-                if any(is_method_call(c, recv='self', member='clear', ayns=False) for c in n.calls()):
-                    cleared = True
-            prio = ('other.ayns.has_priority_over(self, if_equal=True)', True) in facts
-            merge_told = ('other.ayns.delete', False) in facts
-            if not prio:
-                bad = 'the target is taken from the newer node on a path that did not establish that the newer node has priority (ties to the newer)'
-            elif not cleared and not merge_told:
-                bad = 'the target changes but the old arguments are kept although the newer node was not told to merge'
-        if bad:
-            run.violation('C13.R3', fi, norm(an.ast), bad, node=an.ast)
-        else:
-            run.ok('C13.R3', (fi.file, an.ast.lineno, fi.qualname), norm(an.ast), 'guarded by priority; arguments cleared unless other.ayns.delete is false (%d paths)' % len(through))
-    mr.function_node_priority_calls(repo, run, 'C13.R3')
-    # same-target / no new target falls through to the mapping merge
-    last = fi.node.body[-1]
-    if norm(last) != 'return super().ayns.on_merge_impl(%s, other)' % fi.params()[1]:
-        run.violation('C13.R3', fi, norm(last), 'arguments are not merged by the mapping merge of the base class')
-    else:
-        run.ok('C13.R3', (fi.file, last.lineno, fi.qualname), norm(last))
+    paths = tr.paths_of(repo, fi, no_inline=set(mt.NI), follow_exceptions=True)
+    n_store = 0
+    verdicts = set()
+    for p in paths:
+        cons = mt.prio_constraints(p.facts)
+        for i, e in enumerate(p.events):
+            if e.kind == 'store' and e.target == 'self._func':
+                n_store += 1
+                cs = mt.prio_constraints(e.facts)
+                newer_wins = bool(cs) and all(mt.consistent(cs, {'self': a, 'other': b}) <= (mt.P(b) >= mt.P(a)) for a in PRIOS for b in PRIOS)
+                cleared = any(x.kind == 'call' and tr.is_call(x, attr='clear', recv='self') for x in p.events)
+                merge_told = ('other.ayns.delete', False) in p.facts
+                if not newer_wins:
+                    verdicts.add(('bad', 'the target is taken from the newer node on a path that did not establish that the newer node has priority (ties to the newer)'))
+                elif not cleared and not merge_told:
+                    verdicts.add(('bad', 'the target changes but the old arguments are kept although the newer node was not told to merge'))
+                else:
+                    verdicts.add(('ok', 'target taken from the newer node: guarded by priority; arguments cleared unless other.ayns.delete is false'))
+            if e.kind == 'call' and e.attr in ('_replace_self', '_replace_other') and e.recv is not None and e.recv.text == 'self':
+                cs = mt.prio_constraints(e.facts)
+                want_newer = e.attr == '_replace_self'
+                okk = bool(cs) and all((not mt.consistent(cs, {'self': a, 'other': b})) or ((mt.P(b) >= mt.P(a)) == want_newer) for a in PRIOS for b in PRIOS)
+                if okk:
+                    verdicts.add(('ok', 'self.%s(other) exactly when the %s node has priority (newer wins ties)' % (e.attr, 'newer' if want_newer else 'older')))
+                else:
+                    verdicts.add(('bad', 'function-node merge must let the newer node win on equal priority: self.%s(other) runs under %s' % (e.attr, tr.describe(p, 4))))
+        if p.status == 'return' and p.ret is not None and p.ret.text != 'self':
+            if p.ret.text != 'super().ayns.on_merge_impl(%s, other)' % fi.params()[1]:
+                verdicts.add(('bad', 'arguments are not merged by the mapping merge of the base class (returns %s)' % p.ret.text[:60]))
+            else:
+                verdicts.add(('ok', 'falls through to super().ayns.on_merge_impl(%s, other)' % fi.params()[1]))
+    if n_store < 2:
+        raise AnalysisError('FunctionNode.on_merge_impl: expected assignments of self._func on the string and the function-node branch, found %d' % n_store)
+    for v in sorted(verdicts):
+        (run.ok if v[0] == 'ok' else run.violation)('C13.R3', fi, 'FunctionNode merge', v[1])
 
 
 def r4(repo, run):
@@ -183,12 +209,25 @@ def r4(repo, run):
     else:
         run.ok('C13.R4', ('awesomeyaml/nodes/function.py', 0, 'FunctionNode'), 'FunctionNode._default_delete = True')
     init = repo.func('FunctionNode.__init__')
-    sd = [c for c in calls_in(init.node) if is_method_call(c, recv='kwargs', member='setdefault') and c.args and norm(c.args[0]) == "'delete'"]
-    sup = [c for c in calls_in(init.node) if norm(c.func) == 'super().__init__']
-    if not sd or norm(sd[0].args[1]) != 'True' or not sup or sd[0].lineno > sup[0].lineno:
+    ip = [p for p in tr.paths_of(repo, init, follow_exceptions=False, no_inline={'__init__'}) if p.status == 'return']
+    if not ip:
+        raise AnalysisError('FunctionNode.__init__: no completing path')
+    okd = True
+    for p in ip:
+        sup = [i for i, e in enumerate(p.events) if e.kind == 'call' and e.callee == 'super().__init__']
+        if len(sup) != 1:
+            raise AnalysisError('FunctionNode.__init__: super().__init__ call not recognised')
+        before = p.events[:sup[0]]
+        sd = any(tr.is_call(e, attr='setdefault', recv='kwargs') and len(e.args) == 2 and e.args[0].const == 'delete' and e.args[1].const is True for e in before)
+        st = any(e.kind == 'store' and e.target == "kwargs['delete']" and e.value is not None and e.value.const is True for e in before) and tr.fact(p, "'delete' in kwargs", False)
+        given = tr.fact(p, "'delete' in kwargs", True)
+        spread = any(k.startswith('**') for k in p.events[sup[0]].kw)
+        if not (sd or st or given) or not spread:
+            okd = False
+    if not okd:
         run.violation('C13.R4', init, "kwargs.setdefault('delete', True)", 'a function node no longer carries an explicit delete=True by default: below a !merge ancestor it inherits delete=False and merges / keeps old arguments although it was not told to')
     else:
-        run.ok('C13.R4', (init.file, sd[0].lineno, init.qualname), "kwargs.setdefault('delete', True) before super().__init__")
+        run.ok('C13.R4', init, "kwargs.setdefault('delete', True) before super().__init__")
     table = constructors(repo)
     for tag, cls, multi in (('!call:', 'CallNode', True), ('!call', 'CallNode', False), ('!bind:', 'BindNode', True), ('!bind', 'BindNode', False)):
         e = table.get(tag)
@@ -201,11 +240,15 @@ def r4(repo, run):
         if e.multi != multi:
             probs.append('registered as %s constructor' % ('multi' if e.multi else 'plain'))
         if multi:
-            if e.data_arg_name != 'args' or e.kwargs.get('func') != ('<expr>', 'target_f_name'):
+            if e.data_arg_name != 'args' or 'func' not in e.kwargs_val:
                 probs.append('suffix/data not passed as func/args (func=%s, data as %s)' % (e.kwargs.get('func'), e.data_arg_name))
-            sp = [s for s in walk_no_nested(e.fi.node) if isinstance(s, ast.Assign) and 'target_f_name' in norm(s.targets[0])]
-            if not sp or "tag_suffix.split(':', maxsplit=1)" not in norm(sp[0].value):
-                probs.append('target name is not the tag suffix up to the first colon')
+            else:
+                sfx = e.fi.params()[1]
+                for suffix, want in (('pkg.f', 'pkg.f'), ('pkg.mod.f:meta', 'pkg.mod.f')):
+                    f = FDE(repo)
+                    got = fde_guard(lambda: f._ev(e.kwargs_val['func'], {sfx: suffix}, e.fi))
+                    if got != want:
+                        probs.append('target name is not the tag suffix up to the first colon (%r gives %r)' % (suffix, got))
         else:
             if e.data_arg_name != 'func':
                 probs.append('scalar not passed as func (data as %s)' % e.data_arg_name)
